@@ -18,8 +18,12 @@ def gen_envs(rng, n_envs, quick=True):
         rules = []
         if rng.chance(1, 4):
             rules = pipeline.rw_rules(rng, "e%d" % i)
-        envs.append({"mode": mode, "seed": rng.hexbytes(16), "seed2": rng.hexbytes(16),
-                     "gc": "%d:%d" % (rng.below(1 << 30), ppm) if ppm else None, "rules": rules})
+        env = {"mode": mode, "seed": rng.hexbytes(16), "seed2": rng.hexbytes(16),
+               "gc": "%d:%d" % (rng.below(1 << 30), ppm) if ppm else None, "rules": rules}
+        if rng.chance(1, 4):
+            # artefacts an earlier build left at the paths about to be written
+            env["dirty"] = {"kind": rng.choice(["longer", "shorter", "other_program", "garbage"]), "fill": rng.hexbytes(8)}
+        envs.append(env)
     return envs
 
 
@@ -128,6 +132,10 @@ def shrink(case):
         if e["mode"] == "ce":
             c = copy.deepcopy(case)
             c["envs"][i]["mode"] = "run"
+            yield c
+        if e.get("dirty"):
+            c = copy.deepcopy(case)
+            c["envs"][i]["dirty"] = None
             yield c
     for g in gens.shrink(case["gen"]):
         c = copy.deepcopy(case)
